@@ -10,7 +10,7 @@
 From Coq Require Import List ZArith NArith Floats Bool.
 Import ListNotations.
 Require Import Clarabel.Base.Ops Clarabel.Base.Dyadic.
-Require Import Clarabel.Cones.Vec Clarabel.Cones.NN Clarabel.Cones.SOC Clarabel.Cones.Step Clarabel.Cones.PSDIndex.
+Require Import Clarabel.Cones.Vec Clarabel.Cones.NN Clarabel.Cones.SOC Clarabel.Cones.Step Clarabel.Cones.PSDIndex Clarabel.Cones.PSDOps.
 
 Definition ofb (b : bool) : N := if b then 0%N else 1%N.
 (** combining codes: any 1 wins (violation candidate), then 2 (information), then 0 *)
@@ -519,3 +519,23 @@ Definition c_soc_state (tol : float) (s z w lam : list float) (eta : float) (u v
 Definition c_nn_state (tol : float) (s z w lam hs : list float) : N :=
   let '(mw, ml) := nn_update_scaling F s z in
   maxl [cmpv_el tol mw w; cmpv_el tol ml lam; cmpv_el tol (nn_get_Hs F mw) hs].
+
+(** ** PSD cone: the models of PSDOps.v at binary64 (plain triple loops instead of BLAS, hence a
+    tolerance, norm-wise relative) evaluated on the hooked R, R⁻¹, λ and compared with what the
+    implementation returned for mul_W, mul_Winv, get_Hs, mul_Hs, affine_ds, Δs_from_Δz_offset,
+    combined_ds_shift, circ_op, λ_inv_circ_op *)
+(** within tolerance = agree (bit-identity with BLAS is not achievable) *)
+Definition cmpv_tol (tol : float) (a b : list float) : N := if N.eqb (cmpv tol a b) 1 then 1%N else 0%N.
+Definition c_psd_model (tol : float) (n : nat) (Rcm Ricm lam x y : list float) (a b sigmamu : float)
+           (wx winvx hs hsx aff off shift circ licx : list float) : N :=
+  let Rm := ocm F n Rcm in let Ri := ocm F n Ricm in let lv := ovec F lam in
+  let A := omm F n Rm (omT Rm) in
+  maxl [ cmpv_tol tol (opsd_mul_Wx F false n Rm x a b y) wx;
+         cmpv_tol tol (opsd_mul_Wx F false n Ri x a b y) winvx;
+         cmpv_tol tol (opsd_get_Hs F n A) hs;
+         cmpv_tol tol (opsd_mul_Wx F true n Rm (opsd_mul_Wx F false n Rm x 1%float 0%float x) 1%float 0%float x) hsx;
+         cmpv_tol tol (opsd_affine_ds F n lv) aff;
+         cmpv_tol tol (opsd_ds_offset F n Rm lv x x) off;
+         cmpv_tol tol (opsd_combined_ds_shift F n Rm Ri x y sigmamu) shift;
+         cmpv_tol tol (opsd_circ_op F n x y) circ;
+         cmpv_tol tol (opsd_lam_inv_circ F n lv x) licx ].
